@@ -62,6 +62,11 @@ def rule_r2(chk, facts):
                 a = nocast(n[2][ai]) if ai < len(n[2]) else None
                 if want == 'ProgCounter':
                     ok = a is not None and a[0] == 'call' and callee_name(a) == 'ProgCounter'
+                    if not ok and a is not None and a[0] == 'l':
+                        # a local that only ever holds ProgCounter()
+                        defs = [nocast(m[3]) for bb, ii, l2, m in f.nodes() if is_assign(m) and strip(m[2]) == ('l', a[1])]
+                        ok = bool(defs) and all(m[1] == '=' for bb, ii, l2, m in f.nodes() if is_assign(m) and strip(m[2]) == ('l', a[1])) \
+                            and all(d[0] == 'call' and callee_name(d) == 'ProgCounter' for d in defs)
                 else:
                     ok = a is not None and a[0] in ('g', 'gs') and a[1] == want
                 chk.ob('C19-R2', 'asmsub.c:BookKeeping:%s#%d' % (cn, ai + 1), ok, f.loc(ln),
